@@ -40,7 +40,11 @@ func genC13(tier string, run int, r *simcore.Rand) *harness.Plan {
 		case 0, 1, 2:
 			return &sim.Node{Type: "sim", Name: g.name("s")}
 		case 3, 4:
-			return &sim.Node{Type: "files", Name: g.name("f")}
+			// half of the files stores get a new-file gate, as localdisk
+			// gives them (there with a width derived from the descriptor
+			// limit): a slot that an error path does not give back makes a
+			// later receive wait for good
+			return &sim.Node{Type: "files", Name: g.name("f"), Gate: []int{0, 0, 1, 2}[r.Intn(4)]}
 		default:
 			return &sim.Node{Type: "diskpacked", Name: g.name("d"), MaxFileSize: []int{1, 60, 400, 5000, 1 << 20}[r.Intn(5)]}
 		}
@@ -132,6 +136,11 @@ func genC13(tier string, run int, r *simcore.Rand) *harness.Plan {
 		// packer's own lower-layer calls (zip upload, meta batch, removal of
 		// the loose copies) get their faults too
 		f := c04File{Name: "c13.dat", Size: (512 << 10) + r.Intn(4000), Chunk: []int{100000, 256 << 10}[r.Intn(2)], Salt: r.Uint64(), SameAs: -1}
+		if r.Bool(0.5) {
+			// several zips for the one file: a fault can land between them
+			f.Chunk = []int{50000, 100000}[r.Intn(2)]
+			cfg.ZipMax = f.Chunk*4 + r.Intn(f.Chunk)
+		}
 		cfg.Files = []c04File{f}
 		full := poolOf(&cfg)
 		at := r.Intn(len(ops) + 1)
@@ -418,7 +427,20 @@ func (s *session) recoverAll(ctx context.Context) string {
 		}
 		if err := s.build(); err != nil {
 			msg = "re-creating the store for recovery failed: " + err.Error()
+			return
 		}
+		// a store that recovery rebuilt must pass its own start-up check
+		// (the simulated configuration sets keepGoing, which only logs it)
+		s.cfg.Root.Walk(func(n *sim.Node) {
+			if n.Type != "blobpacked" || msg != "" {
+				return
+			}
+			if st, gerr := s.world.GetStorage("/" + n.Name + "/"); gerr == nil {
+				if complaint := blobpacked.VerifCheckLargeIntegrity(st); complaint != "" {
+					msg = "after recovery from the zips the packed store's own start-up integrity check fails (a start without keepGoing would refuse): " + complaint
+				}
+			}
+		})
 	})
 	if herr != nil {
 		return "recovery never finished: " + herr.Error()
